@@ -214,7 +214,7 @@ PROPS = {
         level="model_checking",
         level_text="decided through a sufficient condition plus symbolic schedules at the granularity of Next: (1) frame condition: after Build / lexer.New / package init every object reachable from the Parser, the lexer Definition and the package-level EBNF parser is frozen in the executor; on every feasible path of Parse*/Lex/String and LexString+Next over symbolic inputs a store into a frozen cell, a write to a frozen map or an append into a frozen slice's spare capacity ends the path as a violation, so concurrent calls work on disjoint mutable memory; (2) history independence: the same call repeated on the same object returns the same result, and for back-reference definitions lexing after an arbitrary earlier input equals lexing with a fresh definition (transparency of the one shared mutable structure, the sync.Map cache); (3) two lexers of one definition advanced in an order given by symbolic schedule bits deliver, for every schedule, the streams fresh definitions deliver alone",
         level_note="trusted: sync.Map is linearizable and *regexp.Regexp / reflect caches are safe for concurrent use (stdlib contracts); the executor's heap model (cells = Go variables; maps and slices tracked as described); real interleavings and the race detector are outside this technique; bounds as C01/C03",
-        runs=[dict(pkg=".", files=["root/zz_verif_ref.go", "root/zz_verif_ggcore.go", "root/zz_verif_parse.go", "root/zz_verif_grammars.go", "root/zz_verif_entry.go", "root/zz_verif_conc.go", "root/zz_verif_map.go"], harness="^VH_C09_", reach={"VH_C09_Parse_Alt": ["accepted", "rejected"], "VH_C09_Parse_Union": ["accepted"], "VH_C09_Parse_Mapped": ["mapped"]}),
+        runs=[dict(pkg=".", files=["root/zz_verif_ref.go", "root/zz_verif_ggcore.go", "root/zz_verif_parse.go", "root/zz_verif_grammars.go", "root/zz_verif_entry.go", "root/zz_verif_conc.go", "root/zz_verif_map.go"], harness="^VH_C09_", reach={"VH_C09_Parse_Alt": ["accepted", "rejected"], "VH_C09_Parse_Union": ["accepted"], "VH_C09_Parse_Mapped": ["mapped"], "VH_C09_Parse_Retained": ["accepted"], "VH_C09_Parse_RetainedCapture": ["accepted"]}),
               dict(pkg="lexer", files=["lexer/zz_verif_stateful.go", "lexer/zz_verif_lexdefs.go", "lexer/zz_verif_lexgen.go", "lexer/zz_verif_conc.go"], harness="^VH_C09_",
                    reach={"VH_C09_Frame_PushPop": ["lexed", "error"], "VH_C09_History_Backref": ["compared"], "VH_C09_History_Collide": ["compared"], "VH_C09_Interleave_PushPop": ["interleaved"], "VH_C09_Interleave_Backref": ["interleaved"], "VH_C09_Interleave_Zero": ["interleaved"]}),
               dict(pkg="ebnf", files=["ebnf/zz_verif_ebnf.go", "root/zz_verif_ggcore.go"], harness="^VH_C09_", reach={"VH_C09_EBNFParser": ["parsed", "failed"]})],
